@@ -200,7 +200,21 @@ def run(ctx):
     FILT = c.const_int("deflate_flags::TDEFL_FILTER_MATCHES")
     RAW = c.const_int("deflate_flags::TDEFL_FORCE_ALL_RAW_BLOCKS")
     worst = None
+    worst_hdr = None
     n3 = 0
+    # the header is written once, with whatever flags are in force at the first block; flags may change afterwards
+    # (set_compression_level / set_format_and_level are legal mid-stream).  So the window a later configuration may use has to fit
+    # the smallest window any earlier configuration could have declared for the same window_bits_max.
+    FLAG_CLASSES = [ZL | probes | (GREEDY if bits & 1 else 0) | (RLE if bits & 2 else 0) | (FILT if bits & 4 else 0) | (RAW if bits & 8 else 0)
+                    for probes in (0, 1, 2, 6, 768, 1500, 4095) for bits in range(16)]
+    declared_min = {}
+    for wbmax in range(0, 16):
+        for fl in FLAG_CLASSES:
+            st, hv = t["header"].eval(fl, wbmax)
+            if st == "ok":
+                d = rfc.zlib_window(hv[0])
+                if wbmax not in declared_min or d < declared_min[wbmax][0]:
+                    declared_min[wbmax] = (d, fl)
     for wbmax in range(0, 16):
         for probes in (0, 1, 2, 6, 768, 1500, 4095):
             for bits in range(16):
@@ -223,6 +237,10 @@ def run(ctx):
                             bound = max(bound, SIZE)
                 if bound > declared and worst is None:
                     worst = (flags, wbmax, bound, declared)
+                dm = declared_min.get(wbmax)
+                if dm is not None and bound > dm[0] and worst is None:
+                    worst = (flags, wbmax, bound, dm[0])
+                    worst_hdr = dm[1]
     f = c.fn("deflate::core::CompressorOxide::set_format_and_level")
     ctx.touched(f)
     if worst is None:
@@ -230,4 +248,4 @@ def run(ctx):
               "changes cannot exceed the declared window" % n3)
     else:
         r3.fail(f.name, "any-flags", "with flags %#x installed on a compressor whose header is sized for window_bits %d the distance bound is %d > %d"
-                % worst)
+                % worst + (" (the window declared when the header is written under flags %#x)" % worst_hdr if worst_hdr is not None else ""))
